@@ -1,3 +1,7 @@
 import EdsSpec.C03
 import EdsSpec.C05
+import EdsSpec.C06
 import EdsSpec.C09
+import EdsSpec.C16
+import EdsSpec.C18
+import EdsSpec.C20
